@@ -67,7 +67,7 @@ pub(crate) fn make_template(path: &Path) -> Result<(), String> {
     Ok(())
 }
 
-pub(crate) const TXNS: [&str; 8] = ["create entry", "modify entry", "delete entry", "add schema attribute", "add access control profile", "create oauth2 client", "change domain display name", "all of them in one transaction"];
+pub(crate) const TXNS: [&str; 9] = ["create entry", "modify entry", "delete entry", "add schema attribute", "add access control profile", "create oauth2 client", "change domain display name", "all of them in one transaction", "a name moves from one entry to another"];
 
 fn oauth2_client() -> Entry<EntryInit, EntryNew> {
     let mut e: Entry<EntryInit, EntryNew> = Entry::new();
@@ -146,6 +146,13 @@ pub(crate) fn apply(w: &mut IdmServerProxyWriteTransaction<'_>, k: usize, fail_m
         q.set_domain_display_name("Renamed By The Harness")?;
         boundary(done)?;
     }
+    if k == 8 {
+        // within one transaction the name `target` leaves its entry and is taken by a new one
+        q.internal_modify_uuid(person_uuid(TARGET), &ModifyList::new_purge_and_set(Attribute::Name, Value::new_iname("formerly_target")))?;
+        boundary(done)?;
+        q.internal_create(vec![person_entry("target", person_uuid(9))])?;
+        boundary(done)?;
+    }
     Ok(())
 }
 
@@ -183,6 +190,7 @@ pub(crate) fn observe(idm: &Idm, with_next_cid: bool) -> String {
         };
         out.push(format!("reader_sees:{seen}"));
         out.push(format!("display_name_txn:{}", r.qs_read.get_domain_display_name()));
+        out.push(format!("name_lookup:target={:?} formerly_target={:?}", r.qs_read.name_to_uuid("target").ok(), r.qs_read.name_to_uuid("formerly_target").ok()));
         // replication metadata and the other backend-wide values, as a backup would record them
         match crate::bkp::backup_bytes(&mut r.qs_read, kanidm_proto::backup::BackupCompression::NoCompression).ok().and_then(|b| serde_json::from_slice::<serde_json::Value>(&b).ok()) {
             Some(v) => {
@@ -328,6 +336,7 @@ fn run_case(tpl: &Path, dir: &Path, k: usize, how: How, baseline_fresh: &str, co
                 4 => &["reader_sees"],
                 5 => &["oauth2_client_configured"],
                 6 => &["display_name_txn", "display_name_cell"],
+                8 => &["entries", "name_lookup"],
                 _ => &["entries", "reader_sees", "oauth2_client_configured", "display_name_txn", "display_name_cell"],
             };
             let changed = changed_fields(&before, &after_cmp);
@@ -413,7 +422,7 @@ pub fn run(args: &[String]) -> ! {
     }
     let mut fams = vec![Fam::Dropped, Fam::OperationFails, Fam::DroppedAfter];
     fams.extend(points.iter().map(|p| Fam::Fault(p)));
-    let cap = ctx.opt_u64("cap").unwrap_or(ctx.pick(60, 400)) as usize;
+    let cap = ctx.opt_u64("cap").unwrap_or(ctx.pick(30, 400)) as usize;
     let only: Option<(usize, String)> = ctx.replay.as_ref().map(|r| (r["case"]["txn"].as_u64().unwrap_or(0) as usize, r["case"]["how"].as_str().unwrap_or("").to_string()));
     let workers = kv_engine::product::ncpu().min(16);
     // phase 1: the successful control of every transaction kind
